@@ -92,24 +92,24 @@ macro_rules! chunked {
 }
 
 harnesses! {
-    fn c11_q_iter_dna [8] { iter_fwd!(Dna, oracle::DNA, 64, 2, 6) }
-    fn c11_q_iter_amino [6] { iter_fwd!(Amino, oracle::AMINO, 21, 2, 4) }
-    fn c11_q_iter_miupac [6] { iter_fwd!(masked::Iupac, oracle::MIUPAC, 25, 2, 4) }
-    fn c11_t_iter_iupac [8] { iter_fwd!(Iupac, oracle::IUPAC, 32, 2, 6) }
-    fn c11_q_rev_iter_dna [8] { iter_rev!(Dna, oracle::DNA, 64, 2, 6) }
-    fn c11_q_rev_iter_amino [6] { iter_rev!(Amino, oracle::AMINO, 21, 2, 4) }
-    fn c11_t_rev_iter_miupac [6] { iter_rev!(masked::Iupac, oracle::MIUPAC, 25, 2, 4) }
+    fn c11_q_iter_dna [10] { iter_fwd!(Dna, oracle::DNA, 64, 2, 6) }
+    fn c11_q_iter_amino [10] { iter_fwd!(Amino, oracle::AMINO, 21, 2, 4) }
+    fn c11_q_iter_miupac [10] { iter_fwd!(masked::Iupac, oracle::MIUPAC, 25, 2, 4) }
+    fn c11_t_iter_iupac [10] { iter_fwd!(Iupac, oracle::IUPAC, 32, 2, 6) }
+    fn c11_q_rev_iter_dna [10] { iter_rev!(Dna, oracle::DNA, 64, 2, 6) }
+    fn c11_q_rev_iter_amino [10] { iter_rev!(Amino, oracle::AMINO, 21, 2, 4) }
+    fn c11_t_rev_iter_miupac [10] { iter_rev!(masked::Iupac, oracle::MIUPAC, 25, 2, 4) }
 
-    fn c11_q_windows_dna [8] { chunked!(Dna, oracle::DNA, 64, 2, 6, true) }
-    fn c11_q_chunks_dna [8] { chunked!(Dna, oracle::DNA, 64, 2, 6, false) }
-    fn c11_q_windows_amino [6] { chunked!(Amino, oracle::AMINO, 21, 2, 4, true) }
-    fn c11_q_chunks_amino [6] { chunked!(Amino, oracle::AMINO, 21, 2, 4, false) }
-    fn c11_q_windows_miupac [6] { chunked!(masked::Iupac, oracle::MIUPAC, 25, 2, 4, true) }
-    fn c11_q_chunks_miupac [6] { chunked!(masked::Iupac, oracle::MIUPAC, 25, 2, 4, false) }
-    fn c11_t_windows_iupac [8] { chunked!(Iupac, oracle::IUPAC, 32, 2, 6, true) }
-    fn c11_t_chunks_iupac [8] { chunked!(Iupac, oracle::IUPAC, 32, 2, 6, false) }
+    fn c11_q_windows_dna [10] { chunked!(Dna, oracle::DNA, 64, 2, 6, true) }
+    fn c11_q_chunks_dna [10] { chunked!(Dna, oracle::DNA, 64, 2, 6, false) }
+    fn c11_q_windows_amino [10] { chunked!(Amino, oracle::AMINO, 21, 2, 4, true) }
+    fn c11_q_chunks_amino [10] { chunked!(Amino, oracle::AMINO, 21, 2, 4, false) }
+    fn c11_q_windows_miupac [10] { chunked!(masked::Iupac, oracle::MIUPAC, 25, 2, 4, true) }
+    fn c11_q_chunks_miupac [10] { chunked!(masked::Iupac, oracle::MIUPAC, 25, 2, 4, false) }
+    fn c11_t_windows_iupac [10] { chunked!(Iupac, oracle::IUPAC, 32, 2, 6, true) }
+    fn c11_t_chunks_iupac [10] { chunked!(Iupac, oracle::IUPAC, 32, 2, 6, false) }
 
-    fn c11_q_chain_dna [8] {
+    fn c11_q_chain_dna [10] {
         let w = any_words::<2>();
         let s = arr::<Dna, 64, 2>(w);
         let (o1, n1, o2, n2) = (any_usize(), any_usize(), any_usize(), any_usize());
@@ -130,7 +130,7 @@ harnesses! {
         }
         reach!(n1 == 3 && n2 == 3, "both full");
     }
-    fn c11_q_into_iter_owned_dna [6] {
+    fn c11_q_into_iter_owned_dna [10] {
         // IntoIterator for &Seq (heap-backed)
         let wd = any_usize();
         let n = any_usize();
